@@ -90,7 +90,7 @@ def reflow(c, r, text):
 def source_scan(c):
     """the only hidden input of the binary is the HashMap hasher seed; harmless iff the maps are never iterated"""
     bad = []
-    for f, maps in [('/repo/src/program.rs', ['regs', 'imports']), ('/repo/src/libapi.rs', ['named'])]:
+    for f, maps in [(core.REPO + '/src/program.rs', ['regs', 'imports']), (core.REPO + '/src/libapi.rs', ['named'])]:
         txt = open(f).read()
         for m in maps:
             for mm in re.finditer(r'\b%s\s*\.\s*(\w+)' % m, txt):
@@ -98,8 +98,8 @@ def source_scan(c):
                     bad.append('%s: %s.%s' % (f, m, mm.group(1)))
         for mm in re.finditer(r'for\s+.*\s+in\s+(?:&\s*(?:mut\s+)?)?(?:self\.)?(regs|imports|named)\b', txt):
             bad.append('%s: iteration over %s' % (f, mm.group(1)))
-    all_src = ''.join(open(os.path.join(dp, f)).read() for dp, _, fs in os.walk('/repo/src') for f in fs if f.endswith('.rs'))
-    all_src += ''.join(open(os.path.join(dp, f)).read() for d in ('/repo/pkt/src', '/repo/ezpkt/src') for dp, _, fs in os.walk(d) for f in fs if f.endswith('.rs'))
+    all_src = ''.join(open(os.path.join(dp, f)).read() for dp, _, fs in os.walk(core.REPO + '/src') for f in fs if f.endswith('.rs'))
+    all_src += ''.join(open(os.path.join(dp, f)).read() for d in (core.REPO + '/pkt/src', core.REPO + '/ezpkt/src') for dp, _, fs in os.walk(d) for f in fs if f.endswith('.rs'))
     uses = re.findall(r'\b(SystemTime|Instant::now|std::env::|env::var|process::id|thread_rng|rand::|getpid|current_dir)\b', all_src)
     nmaps = len(re.findall(r'HashMap\s*<', all_src))
     c.extra['source_scan'] = dict(hashmaps=nmaps, ambient_api_uses=sorted(set(uses)), bad_map_uses=bad)
